@@ -201,6 +201,10 @@ def _run_cfg(seed, tier, extra_cases, use_cache, label):
         hists.append([{"op": "rewrite", "file": "f1", "version": "modA"}, {"op": "rewrite", "file": "f2", "version": "chain"},
                       {"op": "bulk", "file": "f2", "version": "modA", "n": 1100},
                       {"op": "throw", "file": "f1", "version": "modA"}, {"op": "throw", "file": "f2", "version": "chain"}])
+        # the map store refuses the write during a rewrite (fault injection): the result is still the native one
+        for v in ("modA", "modB", "chain", "plain", "err", "bommod"):
+            hists.append([{"op": "rewrite", "file": "f1", "version": "modA"}, {"op": "rewrite_fault", "file": "f2", "version": v},
+                          {"op": "throw", "file": "f1", "version": "modA"}])
         pool = probe_versions + ["modA", "modB", "chain", "plain", "err", "bommod"]
         for i in range(60 if tier == "quick" else 1200):
             h, last = [], {}
@@ -350,7 +354,7 @@ def _run_cfg(seed, tier, extra_cases, use_cache, label):
         if rec["ev"] == "init":
             rec["lines"] = {"%s|%s" % (f, v): val for f in FILES.values() for v, val in lines_tab[f].items()}
             rec["classes"] = {"%s|%s" % (f, v): c for f in FILES.values() for v, c in dict(CLASSES, none="none").items()}
-        elif rec["ev"] in ("rewrite",):
+        elif rec["ev"] in ("rewrite", "rewrite_fault"):
             rec["version"] = "%s|%s" % (rec["file"], rec["version"])
     if missing:
         raise vlib.ToolError("%d histories were not replayed by the package runner" % missing)
